@@ -1,24 +1,125 @@
 import Rg.Model.Comment
+import Rg.Model.CommentAsIs
 import Rg.Spec.C12
+import Rg.Proofs.CommentSpan
 import Rg.Proofs.Comment
 import Rg.Proofs.CommentSpec
 /-!
 # C12 — comment rules report the matched span and its named groups precisely
 
-About the model of `runCommentRules` / `handleCommentMatch` / `regexpHasCaptureGroups`
-(`Rg/Model/Comment.lean`), for every comment text, offset, file, rule list and every answer of the
-regexp oracle:
+About the model of `runCommentRules` / `commentPart` / `commentTextSpan` / `handleCommentMatch` /
+`regexpHasCaptureGroups` (`Rg/Model/Comment.lean`, `Rg/Model/CommentSpan.lean`: the code after
+`fixes/c12-cr-offsets.diff`), for every comment, offset, file, rule list and every answer of the regexp oracle:
 
+* `scanner_strips_only_CR` — whatever bytes a comment consists of, the text go/scanner delivers for it is those
+  bytes with some carriage returns removed (`CRText`); this is the only thing the theorems below assume about a file
+  and a comment text, so CRLF files are covered;
+* `span_in_comment`, `span_monotone`, `span_bytes`, `span_plain` — `commentTextSpan`: for all comment byte strings and
+  all index pairs the translated span lies inside the comment, is monotone (disjoint pieces stay disjoint), and the
+  file bytes of the span with the stripped carriage returns removed are exactly the matched bytes of the text; without
+  carriage returns it is the plain arithmetic;
 * `first_accepting_rule_only` — one report at most, from the first rule that matches and accepts;
-* `span_exact` / `span_exact_fast` — the node is `[off+lo₀, off+hi₀)` and the file's bytes there are the match
-  (`_partial`: needs `NoCR`, the comment text being literally the file's bytes — false in CRLF files, see
-  `cr_counterexample`);
+* `span_exact` / `span_exact_fast` — the node's span is the file span of the whole match and the file's bytes there
+  are the match (no "no carriage return" hypothesis any more);
 * `group_text` — the captures are exactly the named groups, each with its submatch text (empty, at the
   comment's start, if it did not participate);
-* `filters_see_texts`, `suggest_span`, `fastpath_equiv`, `hasCaptureGroups_iff`, `rule_line_fixed`.
+* `filters_see_texts`, `suggest_span`, `fastpath_equiv`, `hasCaptureGroups_iff`, `rule_line`;
+* `model_meets_spec` — the model never violates the executable statement `SpecC12.verdict`;
+* `cr_counterexample` — the code before the repair (`Rg/Model/CommentAsIs.lean`) on a CRLF block comment.
 -/
 namespace C12
 open CM Rx
+
+/-! ## carriage returns: the scanner and `commentTextSpan`, for all byte strings -/
+
+/-- **go/scanner only removes carriage returns**: for every file `pre ++ raw ++ rest` in which `raw` are the source
+bytes of a comment, the comment's text is the file's bytes from the comment's offset on with some carriage returns
+removed — whichever ones `stripCR` decides to keep. -/
+theorem scanner_strips_only_CR (pre raw rest : Bytes) : CRText (pre ++ raw ++ rest) pre.length (commentText raw) :=
+  crtext_of_scan pre raw rest
+
+/-- **the translated span is inside the comment**: for every comment source `raw` anywhere in a file and every index
+pair `lo ≤ hi` into its text, `commentTextSpan` answers a span `[p, e)` with
+`comment start + lo ≤ p ≤ e ≤ comment end`, at least as long as the piece of text. -/
+theorem span_in_comment (pre raw rest : Bytes) (lo hi : Nat) (hle : lo ≤ hi) (hhi : hi ≤ (commentText raw).length) :
+    ∃ p e, textSpan (pre ++ raw ++ rest) pre.length (commentText raw) lo hi = .ok (p, e) ∧
+      pre.length + lo ≤ p ∧ p ≤ e ∧ e ≤ pre.length + raw.length ∧ hi - lo ≤ e - p := by
+  have hdrop : (pre ++ raw ++ rest).drop pre.length = raw ++ rest := by rw [List.append_assoc, List.drop_left]
+  obtain ⟨K, hK⟩ := crtext_after (crtext_of_scan pre raw rest)
+  obtain ⟨a, b, he, hab, _, hla, _, hlen, hb, _⟩ := spanC_spec hK pre.length lo hi hle hhi
+  refine ⟨pre.length + a, pre.length + b, ?_, by omega, by omega, ?_, by omega⟩
+  · rw [textSpan_eq _ _ _ lo hi b hle hb, he]
+  · obtain ⟨core, tail, hraw, hdel⟩ := del_commentText raw
+    have hK' : after (core ++ (tail ++ rest)) (commentText raw) (commentText raw).length = some K := by
+      rw [← List.append_assoc, ← hraw, ← hdrop]; exact hK
+    have h1 := after_le_of_del hdel _ hK'
+    obtain ⟨b', hb2, hb3⟩ := after_mono hK hi hhi
+    rw [hb] at hb2
+    simp only [Option.some.injEq] at hb2
+    subst hb2
+    have hlen : raw.length = core.length + tail.length := by rw [hraw]; simp
+    omega
+
+/-- **monotone**: a piece of the text that begins / ends later begins / ends later in the file, and pieces that do not
+overlap in the text (one group after another) do not overlap in the file -/
+theorem span_monotone (src : Bytes) (off : Nat) (text : Bytes) (hcr : CRText src off text) (lo hi lo' hi' : Nat)
+    (h1 : lo ≤ hi) (h2 : lo' ≤ hi') (h3 : hi' ≤ text.length) (hlo : lo ≤ lo') (hhi : hi ≤ hi') :
+    ∃ p e p' e', textSpan src off text lo hi = .ok (p, e) ∧ textSpan src off text lo' hi' = .ok (p', e') ∧
+      p ≤ p' ∧ e ≤ e' ∧ (hi ≤ lo' → e ≤ p') := by
+  obtain ⟨K, hK⟩ := crtext_after hcr
+  obtain ⟨k, hk, _⟩ := after_mono hK hi (by omega)
+  obtain ⟨k', hk', _⟩ := after_mono hK hi' h3
+  obtain ⟨m1, m2, m3⟩ := spanC_mono hK off lo hi lo' hi' h1 h2 h3 hlo hhi
+  exact ⟨_, _, _, _, textSpan_eq src off text lo hi k h1 hk, textSpan_eq src off text lo' hi' k' h2 hk', m1, m2, m3⟩
+
+/-- **the bytes of the span are the matched bytes**: the file's bytes at the translated span are the piece of the text
+with carriage returns put back (`Del`: the text piece is the span with some carriage returns removed), the span begins
+with the piece's first byte and ends with its last byte (no stripped carriage return at either end, so a replacement of
+the span leaves the line breaks around it alone); in particular, removing the carriage returns from the span gives
+the piece with its carriage returns removed, and the piece itself when it contains none. -/
+theorem span_bytes (src : Bytes) (off : Nat) (text : Bytes) (hcr : CRText src off text) (lo hi : Nat)
+    (hle : lo ≤ hi) (hhi : hi ≤ text.length) :
+    ∃ p e, textSpan src off text lo hi = .ok (p, e) ∧
+      Del (SpecC12.slice src p e) (SpecC12.slice text lo hi) ∧
+      (SpecC12.slice src p e).head? = (SpecC12.slice text lo hi).head? ∧
+      (SpecC12.slice src p e).getLast? = (SpecC12.slice text lo hi).getLast? ∧
+      (SpecC12.slice src p e).filter (· ≠ cr) = (SpecC12.slice text lo hi).filter (· ≠ cr) ∧
+      (cr ∉ SpecC12.slice text lo hi → (SpecC12.slice src p e).filter (· ≠ cr) = SpecC12.slice text lo hi) := by
+  obtain ⟨K, hK⟩ := crtext_after hcr
+  obtain ⟨k, hk, _⟩ := after_mono hK hi hhi
+  obtain ⟨a, b, he, _, _, _, _, _, _, hdel, hhead, hlast⟩ := spanC_spec hK off lo hi hle hhi
+  rw [slice_drop, slice_text] at hdel hhead hlast
+  have hfilter : ∀ {s t : Bytes}, Del s t → s.filter (· ≠ cr) = t.filter (· ≠ cr) := by
+    intro s t h
+    induction h with
+    | nil => rfl
+    | keep b _ ih => simp only [List.filter_cons]; rw [ih]
+    | skip _ ih => simpa [List.filter_cons] using ih
+  refine ⟨off + a, off + b, by rw [textSpan_eq src off text lo hi k hle hk, he], hdel, hhead, hlast, hfilter hdel, ?_⟩
+  intro hno
+  rw [hfilter hdel]
+  apply List.filter_eq_self.2
+  intro x hx
+  simp only [ne_eq, decide_not, Bool.not_eq_eq_eq_not, Bool.not_true, decide_eq_false_iff_not]
+  intro e; subst e; exact hno hx
+
+/-- **no carriage return, no change**: when the comment's source has no carriage return (every comment of a file with
+LF line endings) the text is the source and the span is the plain arithmetic `[off+lo, off+hi)` the code used before. -/
+theorem span_plain (pre raw rest : Bytes) (hno : cr ∉ raw) (lo hi : Nat) (hle : lo ≤ hi) (hhi : hi ≤ raw.length) :
+    commentText raw = raw ∧
+      textSpan (pre ++ raw ++ rest) pre.length (commentText raw) lo hi = .ok (pre.length + lo, pre.length + hi) := by
+  have ht := commentText_noCR raw hno
+  refine ⟨ht, ?_⟩
+  rw [ht]
+  have hdrop : (pre ++ raw ++ rest).drop pre.length = raw ++ rest := by rw [List.append_assoc, List.drop_left]
+  rw [textSpan_eq _ _ _ lo hi hi hle (by rw [hdrop]; exact after_prefix raw rest hi hhi), hdrop,
+    spanC_prefix raw rest pre.length lo hi hle hhi]
+
+/-- an unreadable file: the text is taken for an exact copy -/
+theorem span_unreadable (off : Nat) (text : Bytes) (lo hi : Nat) (hle : lo ≤ hi) :
+    textSpan [] off text lo hi = .ok (off + lo, off + hi) := textSpan_nosrc off text lo hi hle
+
+/-! ## the runner -/
 
 /-- **first accepting rule only**: `runCommentRules` delivers at most one report per comment; it comes from
 rule number `rep.rule`, whose regexp matched and whose filter accepted, and every earlier rule either did
@@ -26,8 +127,8 @@ not match or was rejected by its filter; no report means every rule is in that s
 theorem first_accepting_rule_only (alt : Bool) (src : Bytes) (size : Nat) (cfg : Int) (off : Nat) (text : Bytes)
     (rules : List CRule) :
     (∀ rep, runCommentRules alt src size cfg off text rules = .ok (some rep) →
-      ∃ pre r post m, rules = pre ++ r :: post ∧ rep.rule = pre.length ∧ buildMatch size off text r = .ok (some m) ∧
-        handleCommentMatch alt src size cfg pre.length r m = .ok (some rep) ∧
+      ∃ pre r post m, rules = pre ++ r :: post ∧ rep.rule = pre.length ∧ buildMatch src size off text r = .ok (some m) ∧
+        handleCommentMatch alt cfg pre.length r m = .ok (some rep) ∧
         ∀ r', r' ∈ pre → Rejected alt src size cfg off text r') ∧
     (runCommentRules alt src size cfg off text rules = .ok none →
       ∀ r, r ∈ rules → Rejected alt src size cfg off text r) := by
@@ -35,62 +136,64 @@ theorem first_accepting_rule_only (alt : Bool) (src : Bytes) (size : Nat) (cfg :
   · intro rep h
     obtain ⟨pre, r, post, m, he, hm, hh, hrej⟩ := runFrom_some alt src size cfg off text rules 0 rep h
     simp only [Nat.zero_add] at hh
-    exact ⟨pre, r, post, m, he, (handle_some alt src size cfg _ r m rep hh).1, hm, hh, hrej⟩
+    exact ⟨pre, r, post, m, he, (handle_some alt cfg _ r m rep hh).1, hm, hh, hrej⟩
   · exact runFrom_none alt src size cfg off text rules 0
 
-/-- **span, submatch path**: the match node starts at `off+lo₀`, ends at `off+hi₀`, carries `text[lo₀:hi₀]`;
-and (`NoCR`) those are the file's bytes at that span. -/
-theorem span_exact_partial (src : Bytes) (size off : Nat) (text : Bytes) (r : CRule) (v : List Int) (lo hi : Int) (m : MatchD)
+/-- **span, submatch path** (full strength: CRLF files included): the match node carries `text[lo₀:hi₀]`, its span
+`[pos, endPos)` is the file span of that piece (`SpecC12.fileSpan`: from the file offset of its first byte to just
+after the file offset of its last byte), and the file's bytes there are the piece up to the carriage returns the
+scanner removed, none of them at either end. -/
+theorem span_exact {msrc src : Bytes} {size off : Nat} {text : Bytes} (vw : View msrc src size off text)
+    (r : CRule) (v : List Int) (lo hi : Int) (m : MatchD)
     (hcg : r.captureGroups = true) (hsub : r.sub = some v) (h0 : v[0]? = some lo) (h1 : v[1]? = some hi)
-    (hin : InRange text lo hi) (hfit : off + text.length ≤ size) (hb : buildMatch size off text r = .ok (some m)) :
-    m.node.pos = off + lo.toNat ∧ m.node.endPos = off + hi.toNat ∧ m.node.text = slice text lo.toNat hi.toNat ∧
-      (NoCR src off text → slice src m.node.pos m.node.endPos = m.node.text) := by
+    (hin : InRange text lo hi) (hb : buildMatch msrc size off text r = .ok (some m)) :
+    (m.node.pos, m.node.endPos) = SpecC12.fileSpan src off text lo.toNat hi.toNat ∧
+      m.node.text = SpecC12.slice text lo.toNat hi.toNat ∧
+      off + lo.toNat ≤ m.node.pos ∧ m.node.pos ≤ m.node.endPos ∧ m.node.endPos ≤ size ∧
+      SpecC12.spanBytesOK (SpecC12.slice src m.node.pos m.node.endPos) m.node.text = true ∧
+      Del (SpecC12.slice src m.node.pos m.node.endPos) m.node.text := by
   obtain ⟨hl0, hl1, hl2⟩ := hin
   unfold buildMatch at hb
   rw [if_pos hcg, hsub] at hb
   simp only at hb
-  cases hc : capsLoop size off text v 0 r.names with
+  cases hc : capsLoop msrc size off text v 0 r.names with
   | panic p => simp [hc, Res.bind] at hb
   | ok caps =>
-    simp only [hc, Res.bind, h0, h1, mkNode_ok size off text lo hi hl0 hl1 hl2 hfit, Res.ok.injEq, Option.some.injEq] at hb
+    simp only [hc, Res.bind, h0, h1, mkNode_ok vw lo hi hl0 hl1 hl2, Res.ok.injEq, Option.some.injEq] at hb
     subst hb
-    have hlen : (slice text lo.toNat hi.toNat).length = hi.toNat - lo.toNat := slice_length text _ _ (by omega) (by omega)
-    refine ⟨rfl, ?_, rfl, ?_⟩
-    · simp only [Node.endPos, hlen]; omega
-    · intro hno
-      simp only [Node.endPos, hlen]
-      have : off + lo.toNat + (hi.toNat - lo.toNat) = off + hi.toNat := by omega
-      rw [this]
-      exact span_bytes src text off lo.toNat hi.toNat hno (by omega) (by omega)
+    obtain ⟨K, hK⟩ := crtext_after vw.cr
+    obtain ⟨a, b, he, _, _, hla, _, _, _, hdel, _⟩ := spanC_spec hK off lo.toNat hi.toNat (by omega) (by omega)
+    have hfs := fileSpan_eq src off text lo.toNat hi.toNat K (by omega) (by omega) hK
+    obtain ⟨_, f2, f3⟩ := fileSpan_le vw lo.toNat hi.toNat (by omega) (by omega)
+    refine ⟨rfl, rfl, ?_, f2, f3, spanNode_bytes vw lo.toNat hi.toNat (by omega) (by omega), ?_⟩
+    · simp only [spanNode, hfs, he]; omega
+    · rw [slice_drop, slice_text] at hdel
+      simp only [spanNode, hfs, he]
+      exact hdel
 
-/-- **span, path without submatches** (`captureGroups = false`) -/
-theorem span_exact_fast_partial (src : Bytes) (size off : Nat) (text : Bytes) (r : CRule) (lo hi : Int) (m : MatchD)
+/-- **span, path without submatches** (`captureGroups = false`), full strength -/
+theorem span_exact_fast {msrc src : Bytes} {size off : Nat} {text : Bytes} (vw : View msrc src size off text)
+    (r : CRule) (lo hi : Int) (m : MatchD)
     (hcg : r.captureGroups = false) (hidx : r.idx = some (lo, hi))
-    (hin : InRange text lo hi) (hfit : off + text.length ≤ size) (hb : buildMatch size off text r = .ok (some m)) :
-    m.node.pos = off + lo.toNat ∧ m.node.endPos = off + hi.toNat ∧ m.node.text = slice text lo.toNat hi.toNat ∧ m.caps = [] ∧
-      (NoCR src off text → slice src m.node.pos m.node.endPos = m.node.text) := by
+    (hin : InRange text lo hi) (hb : buildMatch msrc size off text r = .ok (some m)) :
+    (m.node.pos, m.node.endPos) = SpecC12.fileSpan src off text lo.toNat hi.toNat ∧
+      m.node.text = SpecC12.slice text lo.toNat hi.toNat ∧ m.caps = [] ∧
+      SpecC12.spanBytesOK (SpecC12.slice src m.node.pos m.node.endPos) m.node.text = true := by
   obtain ⟨hl0, hl1, hl2⟩ := hin
   unfold buildMatch at hb
   rw [if_neg (by simp [hcg]), hidx] at hb
-  simp only [mkNode_ok size off text lo hi hl0 hl1 hl2 hfit, Res.bind, Res.ok.injEq, Option.some.injEq] at hb
+  simp only [mkNode_ok vw lo hi hl0 hl1 hl2, Res.bind, Res.ok.injEq, Option.some.injEq] at hb
   subst hb
-  have hlen : (slice text lo.toNat hi.toNat).length = hi.toNat - lo.toNat := slice_length text _ _ (by omega) (by omega)
-  refine ⟨rfl, ?_, rfl, rfl, ?_⟩
-  · simp only [Node.endPos, hlen]; omega
-  · intro hno
-    simp only [Node.endPos, hlen]
-    have : off + lo.toNat + (hi.toNat - lo.toNat) = off + hi.toNat := by omega
-    rw [this]
-    exact span_bytes src text off lo.toNat hi.toNat hno (by omega) (by omega)
+  exact ⟨rfl, rfl, rfl, spanNode_bytes vw lo.toNat hi.toNat (by omega) (by omega)⟩
 
 /-- **the path without submatches loses nothing**: when the regexp has no named group (what
 `regexpHasCaptureGroups = false` guarantees, `hasCaptureGroups_iff`) and the two regexp calls agree on the
 whole match, both paths build the same match data. -/
-theorem fastpath_equiv (size off : Nat) (text : Bytes) (r : CRule) (hn : ∀ n, n ∈ r.names → n = [])
+theorem fastpath_equiv (src : Bytes) (size off : Nat) (text : Bytes) (r : CRule) (hn : ∀ n, n ∈ r.names → n = [])
     (hcons : match r.sub with
       | none => r.idx = none
       | some v => ∃ lo hi, v[0]? = some lo ∧ v[1]? = some hi ∧ r.idx = some (lo, hi)) :
-    buildMatch size off text { r with captureGroups := true } = buildMatch size off text { r with captureGroups := false } := by
+    buildMatch src size off text { r with captureGroups := true } = buildMatch src size off text { r with captureGroups := false } := by
   unfold buildMatch
   simp only [if_true, Bool.false_eq_true, if_false]
   cases hs : r.sub with
@@ -98,7 +201,7 @@ theorem fastpath_equiv (size off : Nat) (text : Bytes) (r : CRule) (hn : ∀ n, 
   | some v =>
     rw [hs] at hcons
     obtain ⟨lo, hi, h0, h1, hi'⟩ := hcons
-    simp only [capsLoop_unnamed size off text v 0 r.names hn, Res.bind, h0, h1, hi']
+    simp only [capsLoop_unnamed src size off text v 0 r.names hn, Res.bind, h0, h1, hi']
 
 /-- **`regexpHasCaptureGroups`** is true exactly when the tree contains a capture node (or did not parse) -/
 theorem hasCaptureGroups_iff (re : Re) : hasCaptureGroups (some re) = anyCapture re := by
@@ -107,28 +210,21 @@ theorem hasCaptureGroups_iff (re : Re) : hasCaptureGroups (some re) = anyCapture
 theorem hasCaptureGroups_parse_error : hasCaptureGroups none = true := rfl
 
 /-- **filters see the submatch texts**: when a report is delivered, every atom `m[v].Text ⋈ lit` of its
-`Where` was evaluated on the node captured under `v`, and — the file holding that node's text at its span —
-on exactly that node's text. -/
-theorem filters_see_texts (alt : Bool) (src : Bytes) (size : Nat) (cfg : Int) (k : Nat) (r : CRule) (m : MatchD) (rep : Report)
-    (h : handleCommentMatch alt src size cfg k r m = .ok (some rep)) (atoms : List Atom) (hf : r.filter = some atoms) :
-    ∀ a, a ∈ atoms → ∃ n t, capturedByName m (atomVar a) = some n ∧ nodeText src size n = .ok t ∧ atomHolds a t = true ∧
-      (n.endPos ≤ size → (n.endPos < src.length → slice src n.pos n.endPos = n.text) → t = n.text) := by
-  intro a ha
-  obtain ⟨n, t, hc, ht, hh⟩ := evalFilter_true src size m atoms ((handle_some alt src size cfg k r m rep h).2.2.2.2.2.2 atoms hf) a ha
-  refine ⟨n, t, hc, ht, hh, ?_⟩
-  intro hend hbytes
-  rw [nodeText_exact src size n hend hbytes] at ht
-  simp only [Res.ok.injEq] at ht
-  exact ht.symm
+`Where` was evaluated on the text of the node captured under `v` — the submatch text, never bytes re-read from the
+file — and found true. -/
+theorem filters_see_texts (alt : Bool) (cfg : Int) (k : Nat) (r : CRule) (m : MatchD) (rep : Report)
+    (h : handleCommentMatch alt cfg k r m = .ok (some rep)) (atoms : List Atom) (hf : r.filter = some atoms) :
+    ∀ a, a ∈ atoms → ∃ n, capturedByName m (atomVar a) = some n ∧ atomHolds a n.text = true :=
+  evalFilter_true m atoms ((handle_some alt cfg k r m rep h).2.2.2.2.2.2 atoms hf)
 
 /-- **a Suggest replaces exactly the reported node's span** (the whole match, or the `At` group) -/
-theorem suggest_span (alt : Bool) (src : Bytes) (size : Nat) (cfg : Int) (k : Nat) (r : CRule) (m : MatchD) (rep : Report)
-    (h : handleCommentMatch alt src size cfg k r m = .ok (some rep)) :
+theorem suggest_span (alt : Bool) (cfg : Int) (k : Nat) (r : CRule) (m : MatchD) (rep : Report)
+    (h : handleCommentMatch alt cfg k r m = .ok (some rep)) :
     rep.node = reportNode m r ∧
       (∀ f t repl, rep.sugg = some (f, t, repl) → ∃ n, rep.node = some n ∧ f = n.pos ∧ t = n.endPos ∧
-        renderMessage src size cfg r.suggestion m false = .ok repl) ∧
+        renderMessage cfg r.suggestion m false = .ok repl) ∧
       (rep.sugg = none ↔ r.suggestion = []) := by
-  obtain ⟨_, _, hnode, _, hs0, hs1, _⟩ := handle_some alt src size cfg k r m rep h
+  obtain ⟨_, _, hnode, _, hs0, hs1, _⟩ := handle_some alt cfg k r m rep h
   refine ⟨hnode, ?_, ?_⟩
   · intro f t repl hsg
     by_cases hs : r.suggestion = []
@@ -146,22 +242,23 @@ theorem suggest_span (alt : Bool) (src : Bytes) (size : Nat) (cfg : Int) (k : Na
         rw [hsg'] at hnone; simp at hnone
     · exact hs0
 
-/-- the repaired loader (`fixes/comment-rule-line.diff`) reports the line of the matching alternative;
-the code as it stands reports the rule's line for every alternative (D12) -/
-theorem rule_line (alt : Bool) (src : Bytes) (size : Nat) (cfg : Int) (k : Nat) (r : CRule) (m : MatchD) (rep : Report)
-    (h : handleCommentMatch alt src size cfg k r m = .ok (some rep)) :
+/-- the loader after `fixes/comment-rule-line.diff` reports the line of the matching alternative;
+the code before it reported the rule's line for every alternative (D12) -/
+theorem rule_line (alt : Bool) (cfg : Int) (k : Nat) (r : CRule) (m : MatchD) (rep : Report)
+    (h : handleCommentMatch alt cfg k r m = .ok (some rep)) :
     rep.line = if alt then r.altLine else r.line :=
-  (handle_some alt src size cfg k r m rep h).2.1
+  (handle_some alt cfg k r m rep h).2.1
 
 /-! ## named groups -/
 
 /-- **group texts**: the captures the runner records are exactly `namedCaps`: every named group with
-`text[lo:hi]` at `[off+lo, off+hi)`, a group that did not participate with the empty text; unnamed groups
-and the whole match are not captures.  Byte arithmetic throughout: nothing depends on runes. -/
-theorem group_text (size off : Nat) (text : Bytes) (v : List Int) (i : Nat) (names : List Bytes)
-    (hwf : ∀ j, i ≤ j → j < i + names.length → WFGroup text v j) (hfit : off + text.length ≤ size) :
-    capsLoop size off text v i names = .ok (namedCaps off text v i names) :=
-  group_text_core size off text v i names hwf hfit
+`text[lo:hi]` at the file span of that piece, a group that did not participate with the empty text at the comment's
+start; unnamed groups and the whole match are not captures.  Byte arithmetic throughout: nothing depends on runes. -/
+theorem group_text {msrc src : Bytes} {size off : Nat} {text : Bytes} (vw : View msrc src size off text)
+    (v : List Int) (i : Nat) (names : List Bytes)
+    (hwf : ∀ j, i ≤ j → j < i + names.length → WFGroup text v j) :
+    capsLoop msrc size off text v i names = .ok (namedCaps src off text v i names) :=
+  group_text_core vw v i names hwf
 
 /-- `$name` / `m[name]` resolve to the leftmost capture of that name, `$$` to the whole match -/
 theorem capturedByName_whole (m : MatchD) : capturedByName m dollarDollar = some m.node := by
@@ -169,25 +266,30 @@ theorem capturedByName_whole (m : MatchD) : capturedByName m dollarDollar = some
 
 /-! ## the model meets the executable statement -/
 
-/- Full statement (false of the code as it stands, see `cr_counterexample` and `rule_line_counterexample`; and not
-   proved without `NamesOK`, although believed true):
-   ∀ rules text off src, verdict cfg src off text (rules.map toSpecRule) ((run … rules).map observe) = [] -/
-/-- **model meets spec**: for every comment, offset, file and rule list such that
+/- Not proved without `NamesOK` (no group name a prefix of another one), although believed true:
+   the sorted-by-length search of `renderMessage` against the spec's "longest name". -/
+/-- **model meets spec** (full strength: no "no carriage return" hypothesis): for every comment, offset, file and rule
+list such that
+* the comment text is the file's bytes at its offset up to carriage returns the scanner removed, the runner reads that
+  file — or cannot read any, and then none was removed —, and the comment lies in the file (`View`; for every file
+  and every comment in it `scanner_strips_only_CR` gives the first part),
 * the regexp answers are what Go's regexp can return (`WFOracle`: index pairs in range or negative, `names[0] = ""`, the two
   calls agree, no named group when `captureGroups` is false),
 * `Where`/`At` only mention `$$` or existing groups (`WFRule`), no group name is a prefix of another one (`NamesOK`),
-* the comment text is literally the file's bytes at its offset (`NoCR` — the hypothesis that fails in CRLF files),
-* the runner reads either nothing or that file, and reports the alternative's line (`alt`, or rules written on one line),
-the model's outcome violates no clause of `SpecC12.verdict`: right rule, exact span, exact bytes, exact message
-and suggestion texts, exact suggestion span, right line. -/
-theorem model_meets_spec_partial (alt : Bool) (msrc src : Bytes) (size : Nat) (cfg : Int) (off : Nat) (text : Bytes)
-    (rules : List CRule) (hs : SrcOK msrc src) (hno : NoCR src off text) (hfit : off + text.length ≤ size)
+* the alternative's line is reported (`alt`, or rules written on one line),
+the model's outcome violates no clause of `SpecC12.verdict`: right rule, the exact span of the file the match stands
+for, exact bytes there, exact message and suggestion texts, exact suggestion span, right line. -/
+theorem model_meets_spec (alt : Bool) (msrc src : Bytes) (size : Nat) (cfg : Int) (off : Nat) (text : Bytes)
+    (rules : List CRule) (vw : View msrc src size off text)
     (hrules : ∀ r, r ∈ rules → RuleOK text r) (hline : alt = true ∨ ∀ r, r ∈ rules → r.line = r.altLine) :
     ∃ out, runCommentRules alt msrc size cfg off text rules = .ok out ∧
       SpecC12.verdict cfg src off text (rules.map toSpecRule) (out.map observe) = [] := by
-  have hrun := run_spec alt msrc src size cfg off text hs hno hfit rules 0 hrules
+  have hrun := run_spec alt msrc src size cfg off text vw rules 0 hrules
+  obtain ⟨K, hK⟩ := crtext_after vw.cr
+  obtain ⟨os, hos, _⟩ := origins_after (src.drop off) text off K hK
   unfold runCommentRules SpecC12.verdict
-  rw [firstAccepting_eq text 0 rules]
+  rw [hos, firstAccepting_eq text 0 rules]
+  simp only [Option.isNone_some, Bool.false_eq_true, if_false]
   cases hfa : firstAcc text 0 rules with
   | none =>
     rw [hfa] at hrun
@@ -204,8 +306,8 @@ theorem model_meets_spec_partial (alt : Bool) (msrc src : Bytes) (size : Nat) (c
       · by_cases he : r.location = []
         · rw [if_pos he]; exact .inl rfl
         · rw [if_neg he]; exact h
-    obtain ⟨n', hn', htext, hspan, _, hbytes⟩ :=
-      lookup_spec src off text r.names v lo hi cx.names0 cx.groups cx.h0 cx.h1 cx.inRange (locVar r) hloc
+    obtain ⟨n', hn', htext, hspan, hbytes⟩ :=
+      lookup_spec cx.view r.names v lo hi cx.names0 cx.groups cx.h0 cx.h1 cx.inRange (locVar r) hloc
     rw [hn] at hn'
     simp only [Option.some.injEq] at hn'
     subst hn'
@@ -216,32 +318,73 @@ theorem model_meets_spec_partial (alt : Bool) (msrc src : Bytes) (size : Nat) (c
         · rfl
         · exact h r hmem
     have hlv : (if r.location = [] then ([36, 36] : Bytes) else r.location) = locVar r := rfl
+    have hbytes' : SpecC12.spanBytesOK (SpecC12.slice src n.pos n.endPos) n.text = true := hbytes
     simp only [Option.map_some, observe, expectedReport, toSpecRule, hl, hlv, hspan, htext, Option.getD_some,
-      ne_eq, not_true_eq_false, if_true, slice_eq, hbytes cx.noCR, List.append_nil, List.nil_append]
+      ne_eq, not_true_eq_false, if_true, hbytes', List.append_nil, List.nil_append]
     by_cases hsg : r.suggestion = []
     · simp [hsg]
     · simp [hsg]
 
-/-! ## kernel-checked counterexamples for the code as it stands -/
+/-! ## kernel-checked examples: a CRLF block comment, before and after the repair -/
 
 /-- `"package p\r\n/* a\r\n foo */\r\n"`: go/scanner delivers the comment text `/* a\n foo */` (carriage return
 stripped) at offset 11; `foo` is at index 6..9 of the text but at offset 18..21 of the file. -/
 def crSrc : Bytes := [112, 97, 99, 107, 97, 103, 101, 32, 112, 13, 10, 47, 42, 32, 97, 13, 10, 32, 102, 111, 111, 32, 42, 47, 13, 10]
+def crRaw : Bytes := [47, 42, 32, 97, 13, 10, 32, 102, 111, 111, 32, 42, 47]
 def crText : Bytes := [47, 42, 32, 97, 10, 32, 102, 111, 111, 32, 42, 47]
+def crRuleAsIs : CMAsIs.CRule :=
+  { captureGroups := false, names := [[]], sub := some [6, 9], idx := some (6, 9), filter := none,
+    msg := [36, 36], location := [], suggestion := [88], line := 5, altLine := 6 }
 def crRule : CRule :=
   { captureGroups := false, names := [[]], sub := some [6, 9], idx := some (6, 9), filter := none,
     msg := [36, 36], location := [], suggestion := [88], line := 5, altLine := 6 }
 
-/-- the reported node `[17,20)` covers the bytes `"\n f"`, not `foo` (which is at `[18,21)`), the Suggest
-would replace those bytes, and — the file being readable — the message shows them. -/
+/-- THE CODE BEFORE THE REPAIR (`CMAsIs`): the reported node `[17,20)` covers the bytes `"\n f"`, not `foo` (which is
+at `[18,21)`), the Suggest would replace those bytes, and — the file being readable — the message shows them. -/
 theorem cr_counterexample :
-    runCommentRules false crSrc crSrc.length 0 11 crText [crRule] =
+    CMAsIs.runCommentRules false crSrc crSrc.length 0 11 crText [crRuleAsIs] =
       .ok (some ⟨0, 5, some ⟨17, [102, 111, 111]⟩, [32, 102, 111], some (17, 20, [88])⟩) ∧
     slice crSrc 17 20 = [32, 102, 111] ∧ slice crSrc 18 21 = [102, 111, 111] ∧ ¬ NoCR crSrc 11 crText := by
   refine ⟨by decide, by decide, by decide, by unfold NoCR; decide⟩
 
+/-- the code as it stands, same input: the node is `[18,21)`, the message shows `foo`, the Suggest replaces `foo`;
+and the scanner model produces that comment text from the file's bytes -/
+theorem cr_repaired :
+    commentText crRaw = crText ∧
+    runCommentRules false crSrc crSrc.length 0 11 crText [crRule] =
+      .ok (some ⟨0, 5, some ⟨18, [102, 111, 111], 21⟩, [102, 111, 111], some (18, 21, [88])⟩) ∧
+    SpecC12.verdict 0 crSrc 11 crText [toSpecRule { crRule with line := 6 }]
+      (some ⟨6, some (18, 21), [102, 111, 111], some (18, 21, [88])⟩) = [] := by
+  refine ⟨by decide, by decide, by decide⟩
+
+/-- a match lying across a line break, `a\r\n foo` (text index 3..9): the span `[14,21)` takes the carriage return in;
+an empty match at the end of the first line (`(?m)$`, index 4) sits before the carriage return, at 15; a match that ends
+with the line's last byte (`a`, index 3..4) ends before the carriage return -/
+example : textSpan crSrc 11 crText 3 9 = .ok (14, 21) := by decide
+example : textSpan crSrc 11 crText 4 4 = .ok (15, 15) := by decide
+example : textSpan crSrc 11 crText 3 4 = .ok (14, 15) := by decide
+example : textSpan crSrc 11 crText 4 5 = .ok (16, 17) := by decide
+example : textSpan crSrc 11 crText 0 12 = .ok (11, 24) := by decide
+example : textSpan [] 11 crText 6 9 = .ok (17, 20) := by decide
+-- `/* *\r\r/ */`: the scanner keeps the second carriage return; `*\r/` (text 3..6) is `*\r\r/` (file 3..7)
+example : commentText [47, 42, 32, 42, 13, 13, 47, 32, 42, 47] = [47, 42, 32, 42, 13, 47, 32, 42, 47] := by decide
+example : textSpan [47, 42, 32, 42, 13, 13, 47, 32, 42, 47] 0 [47, 42, 32, 42, 13, 47, 32, 42, 47] 3 6 = .ok (3, 7) := by decide
+-- `// a\r` followed by `\n`: the final carriage return is not part of the text
+example : commentText [47, 47, 32, 97, 13] = [47, 47, 32, 97] := by decide
+
+/-- the hypothesis `View` of the theorems is satisfiable by a CRLF block comment, read from the file -/
+theorem cr_view : View crSrc crSrc crSrc.length 11 crText where
+  cr := by
+    have h := crtext_of_scan [112, 97, 99, 107, 97, 103, 101, 32, 112, 13, 10] crRaw [13, 10]
+    have e : commentText crRaw = crText := by decide
+    rw [e] at h
+    exact h
+  seen := .inl rfl
+  fit := by decide
+  size := by decide
+
 /-- D12: with two alternatives on lines 6 and 7 of a rule starting on line 5, a match of the second
-alternative is reported with line 5; the repaired variant reports 7 -/
+alternative was reported with line 5 before `fixes/comment-rule-line.diff`; the code as it stands reports 7 -/
 def altRules : List CRule :=
   [{ captureGroups := false, names := [[]], sub := none, idx := none, filter := none, msg := [109], location := [],
      suggestion := [], line := 5, altLine := 6 },
@@ -251,9 +394,9 @@ def altRules : List CRule :=
 theorem rule_line_counterexample :
     (runCommentRules false [] 30 0 10 [47, 47, 32, 102, 111, 111] altRules).isOk = true ∧
     runCommentRules false [] 30 0 10 [47, 47, 32, 102, 111, 111] altRules =
-      .ok (some ⟨1, 5, some ⟨13, [102, 111, 111]⟩, [109], none⟩) ∧
+      .ok (some ⟨1, 5, some ⟨13, [102, 111, 111], 16⟩, [109], none⟩) ∧
     runCommentRules true [] 30 0 10 [47, 47, 32, 102, 111, 111] altRules =
-      .ok (some ⟨1, 7, some ⟨13, [102, 111, 111]⟩, [109], none⟩) := by
+      .ok (some ⟨1, 7, some ⟨13, [102, 111, 111], 16⟩, [109], none⟩) := by
   refine ⟨by decide, by decide, by decide⟩
 
 /-! ## non-vacuity -/
@@ -265,16 +408,78 @@ def npRule : CRule :=
 def npText : Bytes := [47, 47, 32, 99, 111, 109, 109, 105, 116, 101, 101]
 
 example : runCommentRules false [] 40 0 10 npText [npRule] =
-    .ok (some ⟨0, 5, some ⟨13, [99, 111, 109, 109, 105, 116, 101, 101]⟩,
+    .ok (some ⟨0, 5, some ⟨13, [99, 111, 109, 109, 105, 116, 101, 101], 21⟩,
       [120, 61, 91, 93, 32, 99, 111, 109, 109, 105, 116, 101, 101], none⟩) := by decide
 example : WFGroup npText [3, 11, -1, -1, 3, 11] 1 := ⟨-1, -1, rfl, rfl, .inl (by decide)⟩
 example : InRange npText 3 11 := by unfold InRange; decide
-example : namedCaps 10 npText [3, 11, -1, -1, 3, 11] 0 [[], [120], []] = [⟨[120], ⟨10, []⟩⟩] := by decide
+example : namedCaps [] 10 npText [3, 11, -1, -1, 3, 11] 0 [[], [120], []] = [⟨[120], ⟨10, [], 10⟩⟩] := by decide
 example : NoCR ([112, 10] ++ npText) 2 npText := by unfold NoCR; decide
 example : hasCaptureGroups (some (node .concat [lit 0 [97], node .capture [lit 0 [98]]])) = true := by decide
 example : hasCaptureGroups (some (node .concat [lit 0 [97], node .star [lit 0 [98]]])) = false := by decide
 
--- the hypotheses of `model_meets_spec_partial` are satisfiable: the rule `(?P<x>collegue)|(commitee)` on `// commitee`
+-- `(?s)(?P<x>a.*foo)` on the CRLF block comment `/* a\r\n foo */`: group x lies across the line break
+def crossRule : CRule :=
+  { captureGroups := true, names := [[], [120]], sub := some [3, 9, 3, 9], idx := some (3, 9), filter := some [.textEq [120] [97, 10, 32, 102, 111, 111]],
+    msg := [36, 120], location := [120], suggestion := [36, 36, 33], line := 5, altLine := 5 }
+
+/-- the Where sees the submatch text `a\n foo` (no carriage return), the node and the Suggest span are `[14,21)` =
+`a\r\n foo` in the file, and the spec holds of that outcome -/
+example : runCommentRules true crSrc crSrc.length 0 11 crText [crossRule] =
+    .ok (some ⟨0, 5, some ⟨14, [97, 10, 32, 102, 111, 111], 21⟩, [97, 10, 32, 102, 111, 111],
+      some (14, 21, [97, 10, 32, 102, 111, 111, 33])⟩) := by decide
+example : SpecC12.verdict 0 crSrc 11 crText [toSpecRule crossRule]
+    (some ⟨5, some (14, 21), [97, 10, 32, 102, 111, 111], some (14, 21, [97, 10, 32, 102, 111, 111, 33])⟩) = [] := by decide
+example : SpecC12.verdict 0 crSrc 11 crText [toSpecRule crossRule]
+    (some ⟨5, some (13, 19), [97, 10, 32, 102, 111, 111], some (13, 19, [97, 10, 32, 102, 111, 111, 33])⟩) = ["span", "span-bytes"] := by decide
+
+-- the hypotheses of `model_meets_spec` are satisfiable with a CRLF file: `crossRule` on `cr_view`
+example : RuleOK crText crossRule where
+  oracle := {
+    names0 := ⟨_, rfl⟩
+    groups := by
+      intro v hv
+      simp only [crossRule, Option.some.injEq] at hv
+      subst hv
+      refine ⟨?_, 3, 9, rfl, rfl, by unfold InRange; decide, rfl⟩
+      intro j hj
+      simp only [crossRule, List.length_cons, List.length_nil] at hj
+      have : j = 0 ∨ j = 1 := by omega
+      rcases this with rfl | rfl
+      · exact ⟨3, 9, rfl, rfl, .inr (.inr (by unfold InRange; decide))⟩
+      · exact ⟨3, 9, rfl, rfl, .inr (.inr (by unfold InRange; decide))⟩
+    noMatch := by intro h; simp [crossRule] at h
+    fast := by intro h; simp [crossRule] at h }
+  rule := {
+    filterVars := by
+      intro atoms h a ha
+      simp only [crossRule, Option.some.injEq] at h
+      subst h
+      simp only [List.mem_singleton] at ha
+      subst ha
+      exact .inr ⟨by decide, by decide⟩
+    location := .inr (.inr ⟨by decide, by decide⟩) }
+  namesOK := by
+    intro j1 j2 a b h1 h2 ha hb _
+    have k1 : j1 = 1 := by
+      rcases j1 with _ | _ | j1
+      · simp [crossRule] at h1; exact absurd h1 ha
+      · rfl
+      · simp [crossRule] at h1
+    have k2 : j2 = 1 := by
+      rcases j2 with _ | _ | j2
+      · simp [crossRule] at h2; exact absurd h2 hb
+      · rfl
+      · simp [crossRule] at h2
+    rw [k1, k2]
+  noDollar := by decide
+
+-- … and with the rule `(?P<x>collegue)|(commitee)` on `// commitee` in an unreadable file
+example : View [] ([112, 10] ++ npText) 13 2 npText where
+  cr := crtext_of_noCR (by unfold NoCR; decide)
+  seen := .inr ⟨rfl, by unfold NoCR; decide⟩
+  fit := by decide
+  size := by decide
+
 example : RuleOK npText npRule where
   oracle := {
     names0 := ⟨_, rfl⟩
